@@ -80,16 +80,16 @@ def reachability(ctx):
     t = show(N.term(fn["body"]), 10 ** 6)
     head = "early{HashSet::contains(P%d,P%d)=>return '()'}{HashSet::insert(P%d,P%d);" % (i_set, i_id, i_set, i_id)
     ctx.expect(t.startswith(head), "C08.3", "reach/guard-and-root", fn["sp"], "visited check first; the root id itself is inserted", "traversal starts with: " + t[:160])
-    TP = "for(%s.type_params){if(let v1::Some($)=Option::map(elem(%s.type_params).ty,|1|{C1_0.id})){{%s}}else{'()'}}" % (TY, TY, rec("Option::map(elem(%s.type_params).ty,|1|{C1_0.id})@v1::Some.0" % TY))
+    TP = "for(%s.type_params){if(let v1::Some($)=Option::map(elem(%s.type_params).ty,|1|{C1_0.id})){%s}else{'()'}}" % (TY, TY, rec("Option::map(elem(%s.type_params).ty,|1|{C1_0.id})@v1::Some.0" % TY))
     ctx.expect(TP in t, "C08.3", "reach/type-params", fn["sp"], "every non-skipped type parameter is visited", "type-parameter loop changed")
     arms = {
-        "Composite": "TypeDef::Composite($)=>for(%s.type_def@TypeDef::Composite.0.fields){{%s}}" % (TY, rec("elem(%s.type_def@TypeDef::Composite.0.fields).ty.id" % TY)),
-        "Variant": "TypeDef::Variant($)=>for(%s.type_def@TypeDef::Variant.0.variants){for(elem(%s.type_def@TypeDef::Variant.0.variants).fields){{%s}}}" % (
+        "Composite": "TypeDef::Composite($)=>for(%s.type_def@TypeDef::Composite.0.fields){%s}" % (TY, rec("elem(%s.type_def@TypeDef::Composite.0.fields).ty.id" % TY)),
+        "Variant": "TypeDef::Variant($)=>for(%s.type_def@TypeDef::Variant.0.variants){for(elem(%s.type_def@TypeDef::Variant.0.variants).fields){%s}}" % (
             TY, TY, rec("elem(elem(%s.type_def@TypeDef::Variant.0.variants).fields).ty.id" % TY)),
-        "Sequence": "TypeDef::Sequence($)=>{%s}" % rec("%s.type_def@TypeDef::Sequence.0.type_param.id" % TY),
-        "Array": "TypeDef::Array($)=>{%s}" % rec("%s.type_def@TypeDef::Array.0.type_param.id" % TY),
-        "Tuple": "TypeDef::Tuple($)=>for(%s.type_def@TypeDef::Tuple.0.fields){{%s}}" % (TY, rec("elem(%s.type_def@TypeDef::Tuple.0.fields).id" % TY)),
-        "Compact": "TypeDef::Compact($)=>{%s}" % rec("%s.type_def@TypeDef::Compact.0.type_param.id" % TY),
+        "Sequence": "TypeDef::Sequence($)=>%s" % rec("%s.type_def@TypeDef::Sequence.0.type_param.id" % TY),
+        "Array": "TypeDef::Array($)=>%s" % rec("%s.type_def@TypeDef::Array.0.type_param.id" % TY),
+        "Tuple": "TypeDef::Tuple($)=>for(%s.type_def@TypeDef::Tuple.0.fields){%s}" % (TY, rec("elem(%s.type_def@TypeDef::Tuple.0.fields).id" % TY)),
+        "Compact": "TypeDef::Compact($)=>%s" % rec("%s.type_def@TypeDef::Compact.0.type_param.id" % TY),
         "Primitive": "TypeDef::Primitive(_)=>'()'",
         "BitSequence": "TypeDef::BitSequence(_)=>'()'",
     }
@@ -136,7 +136,7 @@ def flatten(ctx):
     REC = ANY
     RD = "HashMap::get(P0@derives::DerivesRegistry.recursive_type_derives,HashMap::get(PATHS,%s.id)@v1::Some.0)" % E
     exp = ("early{!let v1::Some($)=HashMap::get(PATHS,%s.id)=>continue;!let v1::Some($)=%s=>continue}"
-           "{derives::collect_type_ids(%s.id,P%d,IDS);for(IDS){{Derives::extend_from(Entry::or_default(HashMap::entry(ADD,elem(IDS))),%s@v1::Some.0)}}}") % (E, RD, E, i_reg, RD)
+           "{derives::collect_type_ids(%s.id,P%d,IDS);for(IDS){Derives::extend_from(Entry::or_default(HashMap::entry(ADD,elem(IDS))),%s@v1::Some.0)}}") % (E, RD, E, i_reg, RD)
     for lid, sym in syms.items():
         if sym == "IDS":
             it = N.local_term(lid)
@@ -158,7 +158,7 @@ def flatten(ctx):
         ctx.bad("C08.4", "missing-anchor/merge-loop", fn["sp"], "merge loop over the per-id derives not found")
     else:
         mt = show(N.term(merge[0][1][2], syms), 10 ** 5)
-        exp_m = ("if(let v1::Some($)=HashMap::remove(PATHS,elem(ADD).0)){{Derives::extend_from(Entry::or_default(HashMap::entry(%s,HashMap::remove(PATHS,elem(ADD).0)@v1::Some.0)),elem(ADD).1)}}else{'()'}") % ANY
+        exp_m = ("if(let v1::Some($)=HashMap::remove(PATHS,elem(ADD).0)){Derives::extend_from(Entry::or_default(HashMap::entry(%s,HashMap::remove(PATHS,elem(ADD).0)@v1::Some.0)),elem(ADD).1)}else{'()'}") % ANY
         expect_term(ctx, "C08.4", "flatten/merge", site(merge[0][0]), mt, exp_m, "each id's derives are merged (set union) into the specific map under that id's own path")
     # id -> path table covers every entry with a non-empty path
     for lid, sym in syms.items():
@@ -177,7 +177,7 @@ def flatten(ctx):
 def compact_as(ctx):
     P = ctx.P
     expect_fn(ctx, "C08.6", "compact-as/insert", "TypeGenerator::<'a>::add_as_compact_derive",
-              "if(let v1::Some($)=P0.settings.compact_as_type_path){{Derives::insert_derive(P1,T[#0](P0.settings.compact_as_type_path@v1::Some.0))}}else{'()'}",
+              "if(let v1::Some($)=P0.settings.compact_as_type_path){Derives::insert_derive(P1,T[#0](P0.settings.compact_as_type_path@v1::Some.0))}else{'()'}",
               "the CompactAs derive is inserted iff a path is configured, and it is that path", "scale_typegen")
     callers = sorted((cshort(b["path"]), show(Norm(b).term(n))[:80]) for b, n in q.callers_of(P, "add_as_compact_derive", GEN))
     ctx.expect(sorted(c for c, _ in callers) == ["TypeGenerator::create_type_ir", "TypeGenerator::upcast_composite"], "C08.6", "compact-as/call-sites", "",
